@@ -181,6 +181,10 @@ func child() {
 		storm(rep, kind, sd, lv)
 		return
 	}
+	if os.Getenv("C06_BATCH") == "srvreq" {
+		srvreq(rep, kind)
+		return
+	}
 	batch, _ := strconv.Atoi(os.Getenv("C06_BATCH"))
 	seed, _ := strconv.ParseInt(os.Getenv("C06_SEED"), 10, 64)
 	level, _ := strconv.Atoi(os.Getenv("C06_LEVEL"))
@@ -400,6 +404,9 @@ func main() {
 			jobs = append(jobs, job{k, b})
 		}
 		jobs = append(jobs, job{k, -1}) // concurrent storm
+		if k == kit.SJSON || k == kit.SSSE || k == kit.LSSE || k == kit.Stdio {
+			jobs = append(jobs, job{k, -2}) // hostile answers to server-issued requests
+		}
 	}
 	sem := make(chan struct{}, 8)
 	done := make(chan struct{}, len(jobs))
@@ -412,6 +419,10 @@ func main() {
 			if j.batch < 0 {
 				tag = fmt.Sprintf("%s-storm", j.kind)
 				batchArg = "storm"
+			}
+			if j.batch == -2 {
+				tag = fmt.Sprintf("%s-srvreq", j.kind)
+				batchArg = "srvreq"
 			}
 			res := r.SpawnChild("c06", tag, nil, []string{"C06_KIND=" + string(j.kind), "C06_BATCH=" + batchArg, "C06_SEED=" + strconv.FormatInt(r.Seed, 10), "C06_LEVEL=" + strconv.Itoa(level)}, nil, 10*time.Minute)
 			cr := r.Merge(res.Stdout())
@@ -435,7 +446,7 @@ func main() {
 		<-done
 	}
 	nativeFuzz(r)
-	r.Finish("server + hostile peers in a child process per (configuration, batch): the C03 request lattice (every member of every method's request x {absent, null, bool, int, float, string, array, object}, envelope faults, non-JSON / truncated bodies, 10000-deep and 1 MiB values, unsolicited responses with every id type), HTTP-level faults (paths, verbs, headers, GET/DELETE with every session-id class, also on servers without sessions), interleaved with well-formed calls from an independent client every 8 inputs; after each batch canaries on the same, a fresh and the independent connection, net/http ErrorLog scan for recovered panics, goroutines with library frames at quiescence after N/2 and N inputs. Thorough adds truncation at every offset, bit flips and random bytes. Then Go native fuzzing (coverage-guided, iteration-bounded) over the three entry points, seeded with the lattice; a concurrent storm of 6 hostile peers per configuration. Distinct = (configuration, input class, answer class) that conformed.",
+	r.Finish("server + hostile peers in a child process per (configuration, batch): the C03 request lattice (every member of every method's request x {absent, null, bool, int, float, string, array, object}, envelope faults, non-JSON / truncated bodies, 10000-deep and 1 MiB values, unsolicited responses with every id type), HTTP-level faults (paths, verbs, headers, GET/DELETE with every session-id class, also on servers without sessions), interleaved with well-formed calls from an independent client every 8 inputs; after each batch canaries on the same, a fresh and the independent connection, net/http ErrorLog scan for recovered panics, goroutines with library frames at quiescence after N/2 and N inputs. Thorough adds truncation at every offset, bit flips and random bytes. Then Go native fuzzing (coverage-guided, iteration-bounded) over the three entry points, seeded with the lattice; a concurrent storm of 6 hostile peers per configuration; on the four configurations with server-issued requests, 40 hostile answer shapes (every JSON type as result and as error, both, neither, retyped / foreign / never-sent ids, duplicates, deep, large, truncated) to a roots/list and to a raw SendRequest the server issued from inside a tool call, each followed by the proper answer and canaries. Distinct = (configuration, input class, answer class) that conformed.",
 		[]string{"'no sequence of bytes' is sampled", "memory exhaustion by unbounded bodies is not driven", "goroutine growth is judged on counts at quiescence, never on time", "coverage-guided fuzzing (go test -fuzz, iteration-bounded) runs over ServeHTTP of the Streamable server, the legacy message endpoint and one stdio line, seeded with the lattice"})
 }
 
